@@ -53,6 +53,8 @@ class St(object):
         self.mem = None
         self.pc = []
         self.trail = ""
+        self.fields = {}                               # struct member path -> z3 array: block -> value (read-only members)
+        self.released = z3.Const("ghost_released0", z3.ArraySort(I, I))   # ghost: capsule block -> number of releases
 
     def fork(self, tag=""):
         s = St()
@@ -60,7 +62,22 @@ class St(object):
         s.mem = self.mem.copy()
         s.pc = list(self.pc)
         s.trail = self.trail + tag
+        s.fields = self.fields          # members are never written by the helpers under contract: shared
+        s.released = self.released
         return s
+
+    def field(self, path, blk, part=""):
+        key = path + part
+        if key not in self.fields:
+            self.fields[key] = z3.Const("field_%s" % key.replace(".", "_"), z3.ArraySort(I, I))
+        return z3.Select(self.fields[key], blk)
+
+    def fptr(self, path, ptr, elem="char"):
+        """pointer-valued member `path` of the struct ptr points to"""
+        return CPtr(self.field(path, ptr.blk, "#blk"), self.field(path, ptr.blk, "#off"), elem)
+
+    def fint(self, path, ptr):
+        return self.field(path, ptr.blk)
 
     # accessors used by contracts
     def i(self, name):
@@ -79,6 +96,16 @@ class St(object):
         """ptr .. ptr+n lies inside a live block"""
         return z3.And(ptr.blk > 0, z3.Select(self.mem.live, ptr.blk), ptr.off >= 0, n >= 0,
                       ptr.off + n <= z3.Select(self.mem.size, ptr.blk))
+
+
+# members of the generator's own structs that the helpers read (array descriptor / capsule): kind per member path
+STRUCT_FIELDS = {"addr.ccharp": "cptr", "addr.base": "vptr", "elem_len": "size_t", "size": "size_t", "type": "int", "rank": "int",
+                 "cxx": "capsule", "addr": "union"}
+STRUCT_TYPES = ("SHROUD_array", "SHROUD_capsule_data")
+
+
+def is_struct_type(base):
+    return any(base.endswith(t) for t in STRUCT_TYPES)
 
 
 class Obl(object):
@@ -129,6 +156,10 @@ class Exec(object):
                     st.pc.append(z3.And(v >= INT_MIN, v <= INT_MAX))
                 else:
                     st.pc.append(z3.And(v >= 0, v <= SIZE_MAX))
+            elif is_struct_type(ty.base) and ty.stars == 1:
+                blk = fresh(name + "_blk")
+                st.pc.append(z3.And(blk >= 0, blk < st.mem.nblocks))
+                st.env[name] = CPtr(blk, 0, "struct")
             else:
                 blk, off = fresh(name + "_blk"), fresh(name + "_off")
                 st.pc.append(z3.And(blk >= 0, blk < st.mem.nblocks))
@@ -350,9 +381,16 @@ class Exec(object):
             if isinstance(a, CInt) and isinstance(b, CInt):
                 return CInt(z3.If(c, a.e, b.e), a.ctype if a.ctype == b.ctype else "size_t")
             raise CSubsetError("?: on pointers")
+        if k == "member":
+            return self.member(n, st)
         if k == "bin":
             return self.binop(n, st)
         if k == "un":
+            if n.op == "&":
+                if n.e.kind != "member":
+                    raise CSubsetError("address-of something other than a struct member")
+                v = self.member(n.e, st, address=True)
+                return v
             if n.op == "-":
                 v = self.ev(n.e, st)
                 r = CInt(-v.e, v.ctype)
@@ -374,6 +412,40 @@ class Exec(object):
         if k == "call":
             return self.call(n, st)
         raise CSubsetError("expression %s" % k)
+
+    def member(self, n, st, address=False):
+        path = [n.name]
+        b = n.a
+        arrow = n.arrow
+        while b.kind == "member":
+            path.insert(0, b.name)
+            arrow = b.arrow
+            b = b.a
+        root = self.ev(b, st)
+        if not (isinstance(root, CPtr) and root.elem == "struct" and arrow):
+            raise CSubsetError("member access on something other than a pointer to a generator struct")
+        key = ".".join(path)
+        kind = STRUCT_FIELDS.get(key)
+        if kind is None:
+            raise CSubsetError("struct member %s" % key)
+        self.oblige(st, "struct-valid", z3.And(root.blk > 0, z3.Select(st.mem.live, root.blk)), "struct pointer is valid")
+        if address:
+            if kind != "capsule":
+                raise CSubsetError("address of member %s" % key)
+            return CPtr(root.blk, 0, "capsule")
+        if kind == "cptr":
+            return st.fptr(key, root, "char")
+        if kind == "vptr":
+            return st.fptr(key, root, "void")
+        if kind == "size_t":
+            v = st.fint(key, root)
+            st.pc.append(z3.And(v >= 0, v <= SIZE_MAX))
+            return CInt(v, "size_t")
+        if kind == "int":
+            v = st.fint(key, root)
+            st.pc.append(z3.And(v >= INT_MIN, v <= INT_MAX))
+            return CInt(v, "int")
+        raise CSubsetError("use of member %s as a value" % key)
 
     def binop(self, n, st):
         op = n.op
@@ -511,6 +583,28 @@ class Exec(object):
             new = z3.Lambda([i], z3.If(z3.And(i >= d.off, i < d.off + cnt.e), z3.Select(src, s.off + i - d.off), z3.Select(old, i)))
             m.bytes = z3.Store(m.bytes, d.blk, new)
             return d
+        if name == "strncpy":
+            d, s_, cnt = args
+            self.oblige(st, "nonneg-conversion", cnt.e >= 0, "strncpy length must not be negative")
+            self.oblige(st, "strncpy-dest", z3.Or(cnt.e == 0, st.valid(d, cnt.e)), "strncpy writes exactly n bytes: destination range inside a live block")
+            # reads at most n bytes (stops after a NUL): a readable range of n bytes is sufficient
+            self.oblige(st, "strncpy-src", z3.Or(cnt.e == 0, st.valid(s_, cnt.e)), "strncpy source: n readable bytes")
+            self.oblige(st, "strncpy-disjoint", z3.Or(cnt.e == 0, d.blk != s_.blk), "strncpy ranges must not overlap")
+            self.oblige(st, "strncpy-nonnull", z3.And(d.blk != 0, s_.blk != 0), "strncpy pointers must not be NULL even for n == 0 (C11 7.24.1p2; UBSan nonnull-attribute)")
+            i = z3.Int("mi!%d" % id(n))
+            old = z3.Select(m.bytes, d.blk)
+            new_bytes = fresh("strncpy_result", AII)
+            new = z3.Lambda([i], z3.If(z3.And(i >= d.off, i < d.off + cnt.e), z3.Select(new_bytes, i), z3.Select(old, i)))
+            m.bytes = z3.If(cnt.e == 0, m.bytes, z3.Store(m.bytes, d.blk, new))
+            return d
+        if name.endswith("SHROUD_memory_destructor"):
+            c = args[0]
+            if not (isinstance(c, CPtr) and c.elem == "capsule"):
+                raise CSubsetError("memory destructor called with something other than &ctx->cxx")
+            # contract of the generated destructor (Wrapc.write_capsule_code): releases what the capsule owns; calling it
+            # on an already released capsule is harmless there, but here every path must release exactly once
+            st.released = z3.Store(st.released, c.blk, z3.Select(st.released, c.blk) + 1)
+            return None
         if name == "memset":
             d, c, cnt = args
             self.oblige(st, "nonneg-conversion", cnt.e >= 0, "memset length (int -> size_t) must not be negative")
